@@ -4,6 +4,10 @@ import EdpVerif.Impl.Decode
 import EdpVerif.Lemmas.Codec
 import EdpVerif.Impl.EqHash
 import EdpVerif.Lemmas.RoundTrip
+import EdpVerif.Lemmas.LocalSpan
+import EdpVerif.Lemmas.Convert
+import EdpVerif.Generated.Misc
+import EdpVerif.Generated.Tags
 /-
 C10 — identifiers received from a peer are re-emitted byte-for-byte.
 -/
@@ -105,5 +109,138 @@ theorem C10_local_roundtrip (x : Ext) (t : Term) (hash plain r : Bytes) (fuel d 
     (hp : enc [] (clearLoc t) = .ok plain) (hl : locOf t = some (hash ++ plain)) (hd : d + 2 ≤ MAX_NESTING_DEPTH) :
     enc [] t = .ok (121 :: (hash ++ plain)) ∧ dec x {} (fuel + 3) d (121 :: (hash ++ plain) ++ r) = .ok (t, r) :=
   dec_enc_local x {} [] (by simp [cfgFor]) (by simp) rfl t hash plain r fuel d hid hh hw hp hl hd
+
+/-! ### received bytes, any inner form (every input) -/
+
+/-- whatever the decoder accepts behind a LOCAL_EXT tag as an identifier — the modern or a legacy form inside, another
+LOCAL_EXT, even a compressed term; any hash; at any depth; with anything behind it; any behaviour of the external calls —
+the encoder writes that identifier back as exactly the bytes the decoder consumed, and those are the bytes it carries -/
+theorem C10_local_span_reemitted (x : Ext) (cfg : DecCfg) (cache : List Bytes) (fuel d : Nat) (bs r : Bytes) (t : Term)
+    (h : dec x cfg fuel d (121 :: bs) = .ok (t, r)) (hid : isIdent t = true) :
+    ∃ span, 121 :: bs = span ++ r ∧ enc cache t = .ok span ∧ locOf t = some (span.drop 1) :=
+  dec_local_reemitted x cfg cache fuel d bs r t h hid
+
+example : ∃ span, 121 :: ([1, 2, 3, 4, 5, 6, 7, 8] ++ (88 :: 119 :: 1 :: [97] ++ be32 1 ++ be32 2 ++ be32 3) ++ [9]) = span ++ [9] ∧
+    enc [] (.pid ⟨[97], 1, 2, 3, some ([1, 2, 3, 4, 5, 6, 7, 8] ++ (88 :: 119 :: 1 :: [97] ++ be32 1 ++ be32 2 ++ be32 3))⟩) = .ok span :=
+  have h := C10_decode_keeps_local_bytes Ext.none [1, 2, 3, 4, 5, 6, 7, 8] [97] [9] 1 2 3 0 0 rfl (by decide) (by decide)
+    (by decide) (by decide) (by decide) (by decide)
+  let ⟨span, h1, h2, _⟩ := C10_local_span_reemitted Ext.none {} [] 3 0 _ [9] _ h rfl
+  ⟨span, h1, h2⟩
+
+/-! ### wherever nested (every context) -/
+
+/-- an identifier that carries preserved bytes `l`, in ANY position of a term — tuple element, list element, element or
+tail of an improper list, map key, map value, free variable of a fun, nested to any depth in any mixture (`TCtx`,
+Lemmas/LocalSpan.lean) — is written as the one block `LOCAL_EXT ++ l` inside the term's encoding, whatever surrounds it
+and whatever atom cache is in force -/
+theorem C10_nested_verbatim (cache : List Bytes) (c : TCtx) (u : Term) (l bs : Bytes)
+    (hid : isIdent u = true) (hl : locOf u = some l) (h : enc cache (c.plug u) = .ok bs) : Occurs (121 :: l) bs := by
+  obtain ⟨ub, hu, ho⟩ := enc_plug cache c u bs h
+  have : ub = 121 :: l := by
+    cases u <;> simp [isIdent] at hid
+    · rename_i p; simp only [locOf] at hl; simp [enc, encPid, hl] at hu; exact hu.symm
+    · simp only [locOf] at hl; subst hl; simp [enc, encPort] at hu; exact hu.symm
+    · simp only [locOf] at hl; subst hl; simp [enc, encRef] at hu; exact hu.symm
+  rw [← this]; exact ho
+
+/-- a pid with preserved bytes as a map key inside a list tail inside a tuple -/
+example : ∃ bs, enc [] ((TCtx.tuple [.int 1] (.ilistTail [.nil] (.mapKey [] .hole (.int 2) [])) []).plug
+      (.pid { node := [97], id := 1, serial := 2, creation := 3, loc := some [9, 9] })) = .ok bs ∧ Occurs [121, 9, 9] bs :=
+  ⟨_, rfl, C10_nested_verbatim [] (TCtx.tuple [.int 1] (.ilistTail [.nil] (.mapKey [] .hole (.int 2) [])) [])
+    (.pid { node := [97], id := 1, serial := 2, creation := 3, loc := some [9, 9] }) [9, 9] _ rfl rfl rfl⟩
+
+/-- the same for the creator pid of a fun (a `PidF` field, not a sub-term), the fun itself in any position -/
+theorem C10_fun_pid_verbatim (cache : List Bytes) (c : TCtx) (a : Nat) (un : Bytes) (i nf : Nat) (m : Bytes) (oi ou : Nat)
+    (p : PidF) (fr : List Term) (l bs : Bytes) (hl : p.loc = some l)
+    (h : enc cache (c.plug (.ifun a un i nf m oi ou p fr)) = .ok bs) : Occurs (121 :: l) bs := by
+  obtain ⟨ub, hu, ho⟩ := enc_plug cache c _ bs h
+  obtain ⟨pb, hp, ho'⟩ := enc_fun_pid cache a un i nf m oi ou p fr ub hu
+  have : pb = 121 :: l := by simp [encPid, hl] at hp; exact hp.symm
+  rw [← this]; exact ho'.trans ho
+
+example : ∃ bs, enc [] (.ifun 0 [] 0 0 [109] 1 2 { node := [97], id := 1, serial := 2, creation := 3, loc := some [7] } []) = .ok bs ∧
+    Occurs [121, 7] bs :=
+  ⟨_, rfl, C10_fun_pid_verbatim [] .hole 0 [] 0 0 [109] 1 2 { node := [97], id := 1, serial := 2, creation := 3, loc := some [7] } [] [7] _ rfl rfl⟩
+
+/-! ### however cloned, moved or converted (Impl/Convert.lean: borrowed.rs arm by arm, `derive(Clone)` field by field) -/
+
+/-- the derived clones of the three identifier structs copy every field, the preserved bytes among them -/
+theorem C10_clone_keeps_local :
+    (∀ p : PidF, clonePid p = p) ∧ (∀ n i c l, clonePort n i c l = (n, i, c, l)) ∧ (∀ n c ids l, cloneRef n c ids l = (n, c, ids, l)) ∧
+    (∀ t, cloneT t = t) ∧ (∀ b, cloneB b = b) :=
+  ⟨fun _ => rfl, fun _ _ _ _ => rfl, fun _ _ _ _ => rfl, cloneT_id, cloneB_id⟩
+
+/-- `to_owned` of ANY zero-copy tree (any ownership flags, identifiers in any form at any depth, maps that are `BTreeMap`s:
+`btreeSorted`) is the tree's structural image: nothing is dropped, reordered or rebuilt, and in particular every identifier
+keeps its preserved bytes -/
+theorem C10_to_owned_structural (b : BTerm) (h : btreeSorted (erase b) = true) : toOwned b = erase b := toOwned_erase b h
+
+/-- and `From<&OwnedTerm>` builds a tree whose structural image is the term it was built from -/
+theorem C10_from_owned_structural (t : Term) (h : btreeSorted t = true) : erase (fromOwned t) = t := erase_fromOwned t h
+
+example : toOwned (fromOwned (.tuple [.port [97] 1 2 (some [5, 5]), .map [(.int 1, .atom [98])]])) =
+    .tuple [.port [97] 1 2 (some [5, 5]), .map [(.int 1, .atom [98])]] :=
+  toOwned_fromOwned _ (by simp [btreeSorted, btreeSortedL, btreeSortedKV, pairwiseLt, allLt])
+
+/-- every sequence of clones, moves and conversions through the zero-copy representation (with or without a clone of the
+zero-copy tree in between) returns the term it started from, so the encoder writes the same bytes afterwards — every term
+whose maps are `BTreeMap`s, every sequence -/
+theorem C10_conversions_identity (cs : List Conv) (t : Term) (h : btreeSorted t = true) :
+    applyConvs cs t = t ∧ encode (applyConvs cs t) = encode t := by
+  rw [applyConvs_id cs t h]; exact ⟨rfl, rfl⟩
+
+example : applyConvs [.clone, .viaBorrowed, .move, .viaBorrowedClone] (.ref [97] 1 [2, 3] (some [4])) = .ref [97] 1 [2, 3] (some [4]) :=
+  (C10_conversions_identity _ _ rfl).1
+
+/-- received, converted, put anywhere into a new term (the pid of a request used in the reply), encoded: the output contains
+exactly the bytes that were received — every input the decoder accepts as an identifier behind LOCAL_EXT, every sequence of
+conversions, every context, any atom cache on the way out -/
+theorem C10_received_reemitted_anywhere (x : Ext) (cfg : DecCfg) (cache : List Bytes) (fuel d : Nat) (bs r out : Bytes) (u : Term)
+    (cs : List Conv) (c : TCtx) (h : dec x cfg fuel d (121 :: bs) = .ok (u, r)) (hid : isIdent u = true)
+    (he : enc cache (c.plug (applyConvs cs u)) = .ok out) : ∃ span, 121 :: bs = span ++ r ∧ Occurs span out := by
+  obtain ⟨span, h1, h2, h3⟩ := dec_local_reemitted x cfg cache fuel d bs r u h hid
+  have hm : btreeSorted u = true := by cases u <;> simp [isIdent] at hid <;> simp [btreeSorted]
+  rw [applyConvs_id cs u hm] at he
+  refine ⟨span, h1, ?_⟩
+  have ho := C10_nested_verbatim cache c u (span.drop 1) out hid h3 he
+  have hs : span = 121 :: span.drop 1 := by
+    have h4 : enc cache u = .ok (121 :: span.drop 1) := by
+      cases u <;> simp [isIdent] at hid
+      · rename_i p; simp only [locOf] at h3; simp [enc, encPid, h3]
+      · simp only [locOf] at h3; subst h3; simp [enc, encPort]
+      · simp only [locOf] at h3; subst h3; simp [enc, encRef]
+    rw [h2] at h4
+    exact Except.ok.inj h4
+  rw [hs]; exact ho
+
+/-! ### the source has the shape the model transcribes (regenerated every run) -/
+
+/-- the three identifier structs derive `Clone` (no hand-written one), `local_ext_bytes` is among their fields and is looked at
+by none of `eq` / `hash` / `cmp` (exactly the other fields are); `with_local_ext_bytes` stores its argument, `new` stores
+nothing; both conversions have one arm per variant of `BorrowedTerm`, variant to same variant, the identifier arms being
+`p.clone()`; the three identifier encoders start by replaying the preserved bytes behind `LOCAL_EXT` = 121; `parse_local_ext`
+keeps `start[..8 + nested_len]` for exactly the three kinds; `is_borrowed` looks at the eight variants the model looks at -/
+theorem C10_source_shape :
+    Gen.C10_PID_FIELDS = ["node", "id", "serial", "creation", "local_ext_bytes"] ∧
+    Gen.C10_PORT_FIELDS = ["node", "id", "creation", "local_ext_bytes"] ∧
+    Gen.C10_REF_FIELDS = ["node", "creation", "ids", "local_ext_bytes"] ∧
+    ("Clone" ∈ Gen.C10_PID_DERIVES ∧ "Clone" ∈ Gen.C10_PORT_DERIVES ∧ "Clone" ∈ Gen.C10_REF_DERIVES) ∧
+    (Gen.C10_PID_MANUAL_CLONE = false ∧ Gen.C10_PORT_MANUAL_CLONE = false ∧ Gen.C10_REF_MANUAL_CLONE = false) ∧
+    (Gen.C10_PID_EQ_FIELDS = Gen.C10_PID_FIELDS.filter (· != "local_ext_bytes") ∧ Gen.C10_PID_HASH_FIELDS = Gen.C10_PID_EQ_FIELDS ∧
+      Gen.C10_PID_ORD_FIELDS = Gen.C10_PID_EQ_FIELDS) ∧
+    (Gen.C10_PORT_EQ_FIELDS = Gen.C10_PORT_FIELDS.filter (· != "local_ext_bytes") ∧ Gen.C10_PORT_HASH_FIELDS = Gen.C10_PORT_EQ_FIELDS ∧
+      Gen.C10_PORT_ORD_FIELDS = Gen.C10_PORT_EQ_FIELDS) ∧
+    (Gen.C10_REF_EQ_FIELDS = Gen.C10_REF_FIELDS.filter (· != "local_ext_bytes") ∧ Gen.C10_REF_HASH_FIELDS = Gen.C10_REF_EQ_FIELDS ∧
+      Gen.C10_REF_ORD_FIELDS = Gen.C10_REF_EQ_FIELDS) ∧
+    (Gen.C10_PID_KEEPS_LOCAL && Gen.C10_PORT_KEEPS_LOCAL && Gen.C10_REF_KEEPS_LOCAL &&
+      Gen.C10_PID_NEW_PLAIN && Gen.C10_PORT_NEW_PLAIN && Gen.C10_REF_NEW_PLAIN) = true ∧
+    Gen.C10_BORROWED_VARIANTS.length = 17 ∧
+    Gen.C10_TO_OWNED_ARMS = Gen.C10_BORROWED_VARIANTS.map (fun v => (v, v)) ∧
+    Gen.C10_FROM_OWNED_ARMS = Gen.C10_BORROWED_VARIANTS.map (fun v => (v, v)) ∧
+    Gen.C10_IDENT_COPIES = ["to_owned:Pid:clone", "to_owned:Port:clone", "to_owned:Reference:clone",
+      "from:Pid:clone", "from:Port:clone", "from:Reference:clone"] ∧
+    Gen.C10_IS_BORROWED_ARMS = ["Atom", "Binary", "BitBinary", "String", "List", "ImproperList", "Map", "Tuple"] ∧
+    Gen.C10_ENC_REPLAY = ["encode_pid_impl", "encode_port_impl", "encode_reference_impl"] ∧
+    Gen.C10_LOCAL_KEEP = ["Pid", "Port", "Reference"] ∧ Gen.LOCAL_EXT = 121 := by decide
 
 end Edp.Props.C10
